@@ -658,7 +658,7 @@ class C18Engine(Engine):
         paths = ["a.npz", "b", "sub/c.npz", "sub/deep/d", "e.v1.npz"][: cfg.randint(2, 5)]
         cpaths = ["k0.npz", "corr/k1.npz"]
         prog = []
-        n = cfg.randint(3, 12)
+        n = cfg.randint(3, 16 if tier == "thorough" else 12)
         saved, csaved = [], []
         for _ in range(n):
             kind = wl.choices(["save", "read", "bytes", "optical", "corr_save", "corr_read"],
